@@ -244,7 +244,7 @@ def make_specs(ctx, grids):
                 "p0": rng.choice([round(rng.uniform(-5, 5), 3), round(rng.uniform(-5, 5), 3), -2.5, 0.0, 3.0]),
                 "principal_on": rng.choice([0, 1, 2])}
 
-    reps_cat = ctx.pick(1, 6)
+    reps_cat = ctx.pick(1, 8)
     for rep in range(reps_cat):
         for base in CATALOGUE:
             nc = catalogue.load(base)["nc"]
@@ -256,7 +256,7 @@ def make_specs(ctx, grids):
                                                    rng.choice([2, 3, max(2, nc // 2), nc - 1]))
                 specs.append(sp)
     sizes = ctx.pick([8, 14, 22], [8, 14, 22, 35, 50])
-    reps_vor = ctx.pick(3, 24)
+    reps_vor = ctx.pick(3, 40)
     for rep in range(reps_vor):
         for G in grids:
             nc = rng.choice(sizes if G < 11 else sizes[:3])
@@ -290,19 +290,22 @@ def run(ctx):
         case = i + 1
         jobs.append((case, sp))
         payloads[case] = sp
-        ctx.add_case(sp, nontrivial=True)
     # big grids first (they are the slow ones)
     order = sorted(jobs, key=lambda j: -(j[1]["grid"] ** 2) * (j[1].get("ncells", 10) + 5))
     results = core.parallel_map(_job, order, chunksize=1)
     verdicts = ctx.validate("Trace_StressTensor", results, heap="2g")
     _account(ctx, verdicts)
+    for case, sp in payloads.items():
+        hits = {h for vj in verdicts.get(case, []) for h in vj.get("hits", [])}
+        ctx.add_case(sp, nontrivial={"C18.batchelor", "C18.linear", "C18.principal_is_eigen"} <= hits)
     ctx.judge(verdicts, payloads)
     ctx.rule = ("cases = (catalogue tissue | random Voronoi tissue) x k in 0..4 interior points per edge (arcs) x "
                 "random similarity near unit scale x every grid size 1..12 enumerated by the TLC key model x "
                 "radius in 0.5..6 x two assignments of pressures/tensions (random, zero, negative, positive, "
                 "uniform, sparse), their linear combination, a pure-pressure assignment, and "
                 "Frame.calculate_stress_tensor; all verdicts by TLC from the logged per-cell/per-interface data. "
-                "A case is counted non-trivial when distinct (all are: every case has >= 2 cells and 6 events); "
+                "A case is non-trivial when TLC judged, in that case, the Batchelor clause on a non-empty selection, "
+                "the linearity clause (premise verified) and the eigen clause on at least one grid position; "
                 "per-clause exercise counts are in clause_hits, decided/undecidable grid positions in positions.")
     ctx.exhaustive = False
     ctx.assumptions += ["TLC/SANY and the CommunityModules Json reader are trusted",
@@ -316,15 +319,17 @@ def run(ctx):
 
 
 def _account(ctx, verdicts):
-    npos = nund = 0
+    npos = nund = use = 0
     for vjs in verdicts.values():
         for vj in vjs:
             if vj["ev"] in ("Tensor", "Principal"):
                 npos += vj.get("npos", 0)
                 nund += vj.get("nund", 0)
+                use = max(use, vj.get("use", 0))
             for d in vj.get("drift", []):
                 ctx.note(f"model_drift {d} (first seen in case {vj['case']})")
     ctx.extra["positions"] = {"judged": npos, "undecidable_or_out_of_range": nund}
+    ctx.extra["batchelor_tolerance_used_percent_max"] = use
 
 
 def replay(ctx, payload):
